@@ -1,6 +1,7 @@
 package main
 
 import (
+	_ "github.com/bufbuild/bufverif/checks/c02"
 	_ "github.com/bufbuild/bufverif/checks/c09"
 	_ "github.com/bufbuild/bufverif/checks/c13"
 	_ "github.com/bufbuild/bufverif/checks/c14"
